@@ -16,19 +16,48 @@ GroupSize == 200
 Modulus == 8
 
 Code(k) == CASE k = "P" -> 0 [] k = "D" -> 1 [] k = "E" -> 2 [] k = "a" -> 3 [] k = "C" -> 4 [] k = "L" -> 5 [] k = "U" -> 6
+           [] k = "T" -> 7 [] k = "Q" -> 8 [] k = "S" -> 9
            [] k = "f" -> 0 [] k = "b" -> 1
-Weight == <<1, 7, 49, 343>>
-Hash(n) == LET cc == n.c ss == n.s IN
+Weight == <<1, 11, 121, 1331, 14641, 161051>>
+HashM(n, m) == LET cc == n.c ss == n.s IN
            (FoldLeft(LAMBDA acc, i : acc + Weight[i] * Code(cc[i]), 0, [i \in 1..Len(cc) |-> i])
-            + FoldLeft(LAMBDA acc, i : acc + (2 * i + 1) * Code(ss[i]), 0, [i \in 1..Len(ss) |-> i])) % Modulus
+            + FoldLeft(LAMBDA acc, i : acc + (2 * i + 1) * Code(ss[i]), 0, [i \in 1..Len(ss) |-> i])) % m
+Hash(n) == HashM(n, Modulus)
+WithSeps(cs) == {[c |-> cs, s |-> ss] : ss \in [1..(Len(cs) - 1) -> Seps]}
 
+\* (1) the base grammar {.., ., empty, plain, C:, long, non-ASCII}
 Small == NamesOf(3)
 Four  == {n \in NamesOf(4) : Len(n.c) = 4}
-Chosen == IF Thorough THEN Small \cup Four ELSE Small \cup {n \in Four : Hash(n) = SeedN % Modulus}
+BaseChosen == IF Thorough THEN Small \cup Four ELSE Small \cup {n \in Four : Hash(n) = SeedN % Modulus}
+
+\* (2) names with at least one `..` look-alike ( ...  ....  ".. " ): every name of <= 2 components, seed-rotated residue
+\* classes of the 3- and 4-component ones.  A trailing ".. " is left out (parse_listfile trims it away).
+HasLookAlike(cs) == \E i \in 1..Len(cs) : cs[i] \in LookAlikes
+ExtComps(k) == {cs \in [1..k -> ExtKinds] : HasLookAlike(cs) /\ cs[k] # "S"}
+ExtNames(k) == UNION {WithSeps(cs) : cs \in ExtComps(k)}
+M3 == IF Thorough THEN 1 ELSE 4
+M4 == IF Thorough THEN 16 ELSE 64
+ExtChosen == ExtNames(1) \cup ExtNames(2)
+             \cup {n \in ExtNames(3) : HashM(n, M3) = SeedN % M3}
+             \cup UNION {{n \in WithSeps(cs) : HashM(n, M4) = SeedN % M4} : cs \in ExtComps(4)}
+
+\* (3) 5- and 6-component names over the extended alphabet, drawn from the seed
+ExtSeq == <<"P", "D", "E", "a", "C", "L", "U", "T", "Q", "P", "E", "Q", "S">>      \* `..`, empty and `....` twice as likely
+R(i, j) == ((SeedN % 997) * 7919 + i * 613 + j * 3571 + ((i * j) % 89) * 17) % 10007
+LongCount == IF Thorough THEN 1500 ELSE 160
+LongName(i) == LET k == 5 + (i % 2)
+                   cs == [j \in 1..k |-> LET x == ExtSeq[1 + (R(i, j) % Len(ExtSeq))] IN IF j = k /\ x = "S" THEN "a" ELSE x]
+               IN [c |-> cs, s |-> [j \in 1..(k - 1) |-> IF R(i, j + 7) % 2 = 0 THEN "b" ELSE "f"]]
+LongChosen == {LongName(i) : i \in 1..LongCount}
+
+Chosen == BaseChosen \cup ExtChosen \cup LongChosen
 
 \* probe options for the classification: the answer must not depend on where `out` is or whether it exists
 ProbeOpt(pres) == [preserve |-> pres, explicit |-> TRUE, chain |-> FALSE, form |-> "rel", preout |-> FALSE]
-SelfErr(n)   == \E pres \in BOOLEAN : AbortsAlone(n.c, ProbeOpt(pres), Guard)
+\* alone: entries whose own write fails (the run stops there), and entries whose LAST component is a look-alike -- it cannot
+\* carry the entry's index, so another entry of the same archive may need the same path as a directory
+SelfErr(n)   == \/ \E pres \in BOOLEAN : AbortsAlone(n.c, ProbeOpt(pres), Guard)
+                \/ n.c[Len(n.c)] \in LookAlikes
 HasRootN(n)  == HasRoot(n.c)
 HasParentN(n) == HasParentDir(n.c)
 
@@ -44,7 +73,11 @@ Groups == UNION {{[names |-> g, hasroot |-> r, hasparent |-> p, selferr |-> FALS
 \* single-entry archive gets both preserve values x two of the four (chain, explicit) pairs, which two
 \* rotating with the name and the seed.
 Parity(g) == (Hash(g.names[1]) + Len(g.names[1].c) + SeedN) % 2
-Wanted(g, ch, ex) == Thorough \/ ~g.selferr \/ (IF Parity(g) = 0 THEN ch = ex ELSE ch # ex)
+LookAlikeLast(g) == LET cs == g.names[1].c IN cs[Len(cs)] \in LookAlikes
+Wanted(g, ch, ex) == \/ Thorough \/ ~g.selferr
+                     \/ /\ ~LookAlikeLast(g) /\ (IF Parity(g) = 0 THEN ch = ex ELSE ch # ex)
+                     \* entries that are alone only because their last component is a look-alike: one (chain, explicit) pair
+                     \/ /\ LookAlikeLast(g) /\ ch = (Parity(g) = 0) /\ ex = ((HashM(g.names[1], 4) \div 2) = 0)
 Product == {[names |-> g.names, hasroot |-> g.hasroot, hasparent |-> g.hasparent, selferr |-> g.selferr,
              preserve |-> pres, chain |-> ch, explicit |-> ex]
             : g \in Groups, pres \in BOOLEAN, ch \in BOOLEAN, ex \in BOOLEAN} 
